@@ -233,7 +233,9 @@ type cfg struct {
 	burst  int // simultaneous Acquires per goroutine at the start of a round
 	ops    int // operations per goroutine per round
 	gcProb int
-	gcRnd  bool // two forced GCs before every round (empties sync.Pool incl. its victim cache)
+	gcRnd  bool   // two forced GCs before every round (empties sync.Pool incl. its victim cache)
+	class  string // tag class ("" = conc / conc1)
+	keep   bool   // do not give names back at the end of the last round (they stay held: final read-back)
 }
 
 func concurrent(out *sx.Out, rng *sx.Rng, c cfg) {
@@ -258,7 +260,7 @@ func concurrent(out *sx.Out, rng *sx.Rng, c cfg) {
 		ready.Add(c.g)
 		done.Add(c.g)
 		for _, w := range ws {
-			go func(w *worker) {
+			go func(w *worker, r int) {
 				defer done.Done()
 				ready.Done()
 				<-start
@@ -279,10 +281,10 @@ func concurrent(out *sx.Out, rng *sx.Rng, c cfg) {
 					w.op()
 				}
 				// give most names back so that the next round starts from a filled (or collected) pool
-				for len(w.held) > 1 && !w.dead {
+				for len(w.held) > 1 && !w.dead && !(c.keep && r == c.rounds-1) {
 					w.release(w.moveToStale(len(w.held)-1), w.rng.Bool())
 				}
-			}(w)
+			}(w, r)
 		}
 		ready.Wait()
 		close(start)
@@ -296,8 +298,11 @@ func concurrent(out *sx.Out, rng *sx.Rng, c cfg) {
 	if c.g == 1 {
 		class = "conc1"
 	}
+	if c.class != "" {
+		class = c.class
+	}
 	emit(out, 1, c.format, ws, mainEv,
-		fmt.Sprintf("%s;g=%d;procs=%d;fmt=%q;rounds=%d;burst=%d;race=%d", class, c.g, c.procs, c.format, c.rounds, c.burst, race))
+		fmt.Sprintf("%s;g=%d;procs=%d;fmt=%s;rounds=%d;burst=%d;race=%d", class, c.g, c.procs, fmtLabel(c.format), c.rounds, c.burst, race))
 }
 
 // ---- single-goroutine histories
@@ -309,6 +314,10 @@ type sop struct {
 }
 
 func sequential(out *sx.Out, format string, script []sop, tag string) {
+	sequentialC(out, "seq", format, script, tag)
+}
+
+func sequentialC(out *sx.Out, class, format string, script []sop, tag string) {
 	w := &worker{rng: sx.NewRng(1), p: namepool.Pool(format), cap: 1 << 30}
 	var all []held // every name ever acquired, by acquisition index
 	for _, s := range script {
@@ -339,7 +348,7 @@ func sequential(out *sx.Out, format string, script []sop, tag string) {
 			w.gc()
 		}
 	}
-	emit(out, 2, format, []*worker{w}, nil, fmt.Sprintf("seq;%s;fmt=%q", tag, format))
+	emit(out, 2, format, []*worker{w}, nil, fmt.Sprintf("%s;%s;fmt=%s", class, tag, fmtLabel(format)))
 }
 
 func parseScript(s string) []sop {
@@ -429,6 +438,201 @@ var fixedScripts = []struct{ name, s string }{
 var formats = []string{"%d", "stmt%d", "x"}
 var moreFormats = []string{"", "x%", "%d%%", "a%db%dc", "%%", "100%%_%d_%d", "name %d"}
 
+// ---- format-length family: the property quantifies over all formats, so also over those that render to
+// long texts (a name longer than 255 bytes does not fit a one-byte length prefix; the pool must not care).
+// Only what Model.v renders faithfully is used: literal code points, %d, %%.
+
+// lit returns n literal bytes without '%' and without digits; position dependent, so that a text cut or
+// shifted anywhere differs from the expected one.
+func lit(n int) string {
+	const abc = "abcdefghijklmnopqrstuvwxyz_ABCDEFGHIJKLMNOPQRSTUVWXYZ"
+	b := make([]byte, n)
+	for i := range b {
+		b[i] = abc[(i+i/len(abc))%len(abc)]
+	}
+	return string(b)
+}
+
+var fmtLabels = map[string]string{}
+
+// fmtLabel is the format as it appears in a tag: quoted when short, a description when it belongs to the family
+func fmtLabel(f string) string {
+	if l, ok := fmtLabels[f]; ok {
+		return l
+	}
+	if len(f) > 40 {
+		return fmt.Sprintf("long(%d bytes)", len(f))
+	}
+	return fmt.Sprintf("%q", f)
+}
+
+type lenFmt struct {
+	f     string
+	n     int  // bytes of the text for a one-digit id
+	huge  bool // very long: few names, few events
+	plain bool // literal prefix + %d
+}
+
+func lenFamily(thorough bool) []lenFmt {
+	var r []lenFmt
+	add := func(label, f string, n int, plain bool) {
+		fmtLabels[f] = label
+		r = append(r, lenFmt{f: f, n: n, huge: len(f) > 5000, plain: plain})
+	}
+	ls := []int{0, 1, 200}
+	for l := 245; l <= 260; l++ {
+		ls = append(ls, l)
+	}
+	ls = append(ls, 300, 1000, 70000)
+	if thorough {
+		ls = append(ls, 2, 100, 230, 240, 244, 261, 270, 511, 512, 4096, 65534, 65535, 65536)
+	}
+	for _, l := range ls {
+		add(fmt.Sprintf("lit%d+%%d", l), lit(l)+"%d", l+1, true)
+	}
+	// the verb elsewhere / twice / none / with %% (all rendered by the model)
+	add("lit127+%d+lit127", lit(127)+"%d"+lit(127), 255, false)
+	add("lit3+%d+lit251", lit(3)+"%d"+lit(251), 255, false)
+	add("%d+lit254", "%d"+lit(254), 255, false)
+	add("lit242+%d%d", lit(242)+"%d%d", 255, false) // second %d prints %!d(MISSING) (12 bytes)
+	add("lit236+noverb", lit(236), 255, false)      // no verb: %!(EXTRA uint64=N) (18 bytes) is appended
+	add("lit253+%%%d", lit(253)+"%%%d", 255, false) // %% is one byte of text
+	add("lit253+%d%%", lit(253)+"%d%%", 255, false)
+	add("lit244+%d%", lit(244)+"%d%", 255, false)                    // trailing %: %!(NOVERB) (10 bytes)
+	add("e-acute*127+%d", repeatStr("\u00e9", 127)+"%d", 255, false) // 254 bytes = 127 code points
+	add("e-acute*255+%d", repeatStr("\u00e9", 255)+"%d", 511, false)
+	return r
+}
+
+func repeatStr(s string, n int) string {
+	b := make([]byte, 0, len(s)*n)
+	for i := 0; i < n; i++ {
+		b = append(b, s...)
+	}
+	return string(b)
+}
+
+// hold n names at once, release them all (every second one through Name.Release), optionally force GCs
+// (fresh ids n+1..2n are then minted), hold n again
+func holdScript(n int, gc bool, again bool) []sop {
+	m := n
+	if n > 100 {
+		m = 12 // the second group only has to show ids above n
+	}
+	return holdScript2(n, m, gc, again)
+}
+
+func holdScript2(n, m int, gc bool, again bool) []sop {
+	var r []sop
+	for i := 0; i < n; i++ {
+		r = append(r, sop{k: 'a'})
+	}
+	if !again {
+		return r
+	}
+	for i := 0; i < n; i++ {
+		k := byte('r')
+		if i%2 == 1 {
+			k = 'n'
+		}
+		r = append(r, sop{k: k, i: (i * 7) % n})
+	}
+	if gc {
+		r = append(r, sop{k: 'g'}, sop{k: 'g'})
+	}
+	for i := 0; i < m; i++ {
+		r = append(r, sop{k: 'a'})
+	}
+	return r
+}
+
+// one holder at a time, the pool drained by two GCs after every release: ids 1..n although nothing is held twice
+func drainScript(n int) []sop {
+	var r []sop
+	for i := 0; i < n; i++ {
+		r = append(r, sop{k: 'a'}, sop{k: 'r', i: i}, sop{k: 'g'}, sop{k: 'g'})
+	}
+	return append(r, sop{k: 'a'})
+}
+
+func lengthFamily(out *sx.Out, rng *sx.Rng, thorough bool) {
+	fam := lenFamily(thorough)
+	quickRace := raceEnabled && !thorough
+	if !raceEnabled {
+		// fn 3 on the family
+		ids := []uint64{1, 9, 10, 11, 99, 100, 101, 999, 1000, 65535, 4294967296, 18446744073709551615}
+		for _, lf := range fam {
+			use := ids
+			if lf.huge {
+				use = []uint64{1, 10, 18446744073709551615}
+			}
+			for _, id := range use {
+				out.Case(3, sx.L{sx.Text(lf.f), sx.U64(id)}, sx.Text(fmt.Sprintf(lf.f, id)), "sprintflen;fmt="+fmtLabel(lf.f))
+			}
+		}
+	}
+	// fn 2: sequential
+	for i, lf := range fam {
+		if quickRace && i%4 != 0 && lf.n != 255 {
+			continue
+		}
+		if lf.huge {
+			sequentialC(out, "seqlen", lf.f, holdScript(12, false, false), "hold12")
+			if thorough {
+				sequentialC(out, "seqlen", lf.f, drainScript(11), "gc-drain11")
+			}
+			continue
+		}
+		sequentialC(out, "seqlen", lf.f, holdScript(12, false, true), "hold12-recycle")
+		sequentialC(out, "seqlen", lf.f, holdScript(12, true, true), "hold12-gc-hold12")
+		sequentialC(out, "seqlen", lf.f, drainScript(12), "gc-drain12")
+		want120 := thorough || lf.n >= 250 && lf.n <= 259 && (lf.plain || i%3 == 0) || len(lf.f) == 2 || len(lf.f) == 1002
+		if quickRace {
+			want120 = lf.plain && (lf.n == 255 || lf.n == 256)
+		}
+		if want120 {
+			sequentialC(out, "seqlen", lf.f, holdScript(120, true, true), "hold120-gc-hold12")
+		}
+		if thorough {
+			sequentialC(out, "seqlen", lf.f, holdScript(1100, false, false), "hold1100")
+			for k := 0; k < 3; k++ {
+				sequentialC(out, "seqlen", lf.f, randomScript(rng, rng.Range(40, 300)), "random")
+			}
+		}
+	}
+	// fn 1: concurrent, A: 16..32 names held at once (two-digit ids), B: 128+ (three-digit ids)
+	reps := 1
+	if thorough {
+		reps = 4
+		if raceEnabled {
+			reps = 1
+		}
+	}
+	for rep := 0; rep < reps; rep++ {
+		for i, lf := range fam {
+			if quickRace && (lf.huge || (i%4 != 0 && lf.n != 255)) {
+				continue
+			}
+			if lf.huge {
+				concurrent(out, rng, cfg{format: lf.f, g: 4, procs: 4, rounds: 1, burst: 3, ops: 0, class: "conclen", keep: rep%2 == 1})
+				continue
+			}
+			a := cfg{format: lf.f, g: 4, procs: 4, rounds: 2, burst: 4, ops: 10, gcRnd: true, gcProb: 3, class: "conclen"}
+			b := cfg{format: lf.f, g: 32, procs: 16, rounds: 1, burst: 4, ops: 4, class: "conclen", keep: i%2 == 0}
+			if rep > 0 {
+				a.g, a.burst, a.procs = rng.Range(2, 8), rng.Range(3, 8), []int{1, 4, 16}[rng.Intn(3)]
+				b.g, b.burst, b.procs = rng.Range(16, 64), rng.Range(4, 8), []int{1, 4, 16}[rng.Intn(3)]
+				a.rounds = rng.Range(2, 4)
+			}
+			concurrent(out, rng, a)
+			wantB := thorough || lf.n >= 250 && lf.n <= 259 && (lf.plain || i%2 == 0) || len(lf.f) == 2 || len(lf.f) == 202 || len(lf.f) == 302
+			if wantB && !(quickRace && !lf.plain) {
+				concurrent(out, rng, b)
+			}
+		}
+	}
+}
+
 func main() {
 	outp := flag.String("out", "", "case file")
 	tier := flag.String("tier", "quick", "quick|thorough")
@@ -456,6 +660,9 @@ func main() {
 			}
 		}
 	}
+
+	// format-length family (fn 3, fn 2, fn 1)
+	lengthFamily(out, rng, thorough)
 
 	// fn 2: single goroutine, fixed scripts then random ones
 	allf := append(append([]string{}, formats...), moreFormats...)
